@@ -43,6 +43,8 @@ pub enum RogueProposal {
     Add,
     GceRename,
     SelfUpdate,
+    /// a stand-alone Update proposal whose new leaf carries somebody else's Nostr identity
+    UpdateForeignIdentity,
 }
 
 pub fn current_exporter_secret<S: MdkStorageProvider>(
@@ -285,6 +287,16 @@ pub fn build_proposal<S: MdkStorageProvider>(
         RogueProposal::SelfUpdate => g
             .propose_self_update(provider, &signer, LeafNodeParameters::default())
             .map_err(|e| e.to_string())?,
+        RogueProposal::UpdateForeignIdentity => {
+            let t = target_identity_hex.ok_or("no target")?;
+            let id = hex::decode(t).map_err(|e| e.to_string())?;
+            let cwk = CredentialWithKey {
+                credential: BasicCredential::new(id).into(),
+                signature_key: signer.public().into(),
+            };
+            g.propose_self_update(provider, &signer, LeafNodeParameters::builder().with_credential_with_key(cwk).build())
+                .map_err(|e| e.to_string())?
+        }
     };
     let mls_bytes = msg.tls_serialize_detached().map_err(|e| e.to_string())?;
     // take the proposal out of the own queue again
